@@ -91,6 +91,10 @@ class C10:
                 pre.append(["add", "T%d pre" % st["tasks"], rng.choice([10, 100]), rng.random() < 0.9])
         for _ in range(nops):
             ops.append(self._gen_op(rng, kind, cfg, st))
+        if rng.random() < 0.15 and ops:
+            # a restart somewhere in the history (stop immediately followed by start)
+            j = rng.randrange(len(ops) + 1)
+            ops[j:j] = [["stop"], ["start"]]
         init = gen_frame(rng, 0, H, W) if kind == "live" else None
         if kind == "status":
             init = {"t": "text", "lines": ["S0 " + rng.choice(WORDS)]}
@@ -353,6 +357,11 @@ class Program:
             out.append(self.oracle.frame if self.oracle.frame is not None else [])
             if not self.cfg["auto_refresh"]:
                 return out
+            # (with the refresh thread the table of the most recent refresh may differ from the
+            # frame on screen, because a print that rendered earlier may have written later)
+            lr = self.oracle.last_refresh_frame
+            if lr is not None and lr not in out:
+                out.append(lr)
             # ... unless the refresh thread has already installed a newer table (set_renderable
             # happens before its write): then the print shows that one; or the print rendered the
             # table before the refresh thread replaced it and wrote after: then it shows the frame
